@@ -103,6 +103,17 @@ pub fn grid() -> Vec<Cell> {
                 Container::LzipMt { workers, .. } => push("member_size=1".into(), base(normal), Container::LzipMt { member: 1, workers: *workers }, true),
                 _ => {}
             }
+            // size options at the upper end: nothing may be reserved for them up front
+            for big in [1u64 << 32, 1 << 40, u64::MAX] {
+                match &c {
+                    Container::Lzma2 { .. } => push(format!("chunk_size={big:#x}"), base(normal), Container::Lzma2 { chunk: Some(big) }, true),
+                    Container::Xz { check, filters, .. } => push(format!("block_size={big:#x}"), base(normal), Container::Xz { check: *check, block: Some(big), filters: filters.clone() }, true),
+                    Container::Lzip { .. } => push(format!("member_size={big:#x}"), base(normal), Container::Lzip { member: Some(big) }, true),
+                    Container::Lzma2Mt { workers, .. } => push(format!("chunk_size={big:#x}"), base(normal), Container::Lzma2Mt { chunk: big, workers: *workers }, true),
+                    Container::LzipMt { workers, .. } => push(format!("member_size={big:#x}"), base(normal), Container::LzipMt { member: big, workers: *workers }, true),
+                    _ => {}
+                }
+            }
             if let Container::Lzip { .. } | Container::LzipMt { .. } = &c {
                 for dict in [(512u32 << 20) + 1, u32::MAX] {
                     let mut o = base(normal);
